@@ -434,14 +434,22 @@ def enum_any_of(seed):
         g = (BugQuery.any_of(x[0], y[0]), (lambda b, x=x, y=y: x[1](b) or y[1](b)), f"any_of({x[2]}, {y[2]})")
         groups.append(g)
         judge(*g)
+    # operands that are conjunctions with an any_of group inside them: a & any_of(b, c) stays a AND (b OR c) under the outer OR
+    mixed = [(x[0] & g[0], (lambda b, x=x, g=g: x[1](b) and g[1](b)), f"({x[2]} & {g[2]})") for x in atoms for g in groups[:40:3]] + \
+            [(g[0] & x[0], (lambda b, x=x, g=g: x[1](b) and g[1](b)), f"({g[2]} & {x[2]})") for x in atoms for g in groups[1:40:5]]
+    for m_ in mixed:
+        judge(*m_)
+        for y in atoms:
+            judge(BugQuery.any_of(m_[0], y[0]), (lambda b, m_=m_, y=y: m_[1](b) or y[1](b)), f"any_of({m_[2]}, {y[2]})")
+            judge(BugQuery.any_of(y[0], m_[0]), (lambda b, m_=m_, y=y: m_[1](b) or y[1](b)), f"any_of({y[2]}, {m_[2]})")
     rnd = random.Random(seed + 3737)
     for _ in range(300):
-        ops = rnd.sample(level1 + groups, rnd.choice((1, 2, 3)))
+        ops = rnd.sample(level1 + groups + mixed, rnd.choice((1, 2, 3)))
         g = (BugQuery.any_of(*[o[0] for o in ops]), (lambda b, ops=ops: any(o[1](b) for o in ops)), "any_of(" + ", ".join(o[2] for o in ops) + ")")
         judge(*g)
         other = rnd.choice(level1 + groups)
         judge(g[0] & other[0], (lambda b, g=g, other=other: g[1](b) and other[1](b)), f"{g[2]} & {other[2]}")
-    return {"name": "C37.any_of.bounded_enumeration", "bound": "any_of over every ordered pair of 16 operands (4 single conditions, their 12 two-condition conjunctions), 300 seeded any_of of 1..3 operands drawn from those and from "
+    return {"name": "C37.any_of.bounded_enumeration", "bound": "any_of over every ordered pair of 16 operands (4 single conditions, their 12 two-condition conjunctions), conjunctions of a condition with an any_of group as operands (in both positions), 300 seeded any_of of 1..3 operands drawn from those and from "
             "any_of groups, each also combined with & ; rendered parameters evaluated on an 8-bug universe by the reference chart reader", "cases": cases, "failures": fails}
 
 
